@@ -43,7 +43,7 @@ def run_spec(spec, per_condition_timeout=60, total_timeout=900):
     cmd = [sys.executable, '-m', 'crosshair', 'check', '--report_all',
            '--per_condition_timeout', str(per_condition_timeout), path]
     env = dict(os.environ)
-    env['PYTHONPATH'] = '/repo/src' + os.pathsep + os.path.dirname(HERE) + os.pathsep + env.get('PYTHONPATH', '')
+    env['PYTHONPATH'] = os.environ.get('VERIF_REPO_SRC', '/repo/src') + os.pathsep + os.path.dirname(HERE) + os.pathsep + env.get('PYTHONPATH', '')
     t0 = time.time()
     try:
         pr = subprocess.run(cmd, capture_output=True, text=True, timeout=total_timeout, env=env)
@@ -91,6 +91,14 @@ def _parse_args(msg):
             k, v = (names[i] if i < len(names) else 'arg%d' % i), part
         try:
             args[k] = int(v)
+            continue
+        except ValueError:
+            pass
+        if v.strip() in ('True', 'False'):
+            args[k] = v.strip() == 'True'
+            continue
+        try:
+            args[k] = float(v)
         except ValueError:
             args[k] = v.strip('\'"')
     return args
